@@ -7,7 +7,7 @@ import (
 )
 
 // checkHandled compares what handler i saw with abstract request i
-func checkHandled(line string, q absReq) string {
+func checkHandled(line string, q absReq, noNorm ...bool) string {
 	m, tg, bsha, hdrs, ts := q.expectLine()
 	if !strings.HasPrefix(line, m+" "+tg+" [") {
 		return "method-or-target"
@@ -15,7 +15,11 @@ func checkHandled(line string, q absReq) string {
 	if !strings.Contains(line, "body="+bsha+" ") {
 		return "body"
 	}
-	if !strings.HasSuffix(line, "trailers=["+strings.Join(ts, "|")+"]") {
+	if len(noNorm) > 0 && noNorm[0] { // names as sent: compare them case-insensitively
+		if !strings.HasSuffix(strings.ToLower(line), strings.ToLower("trailers=["+strings.Join(ts, "|")+"]")) {
+			return "trailers"
+		}
+	} else if !strings.HasSuffix(line, "trailers=["+strings.Join(ts, "|")+"]") {
 		return "trailers"
 	}
 	// every application header visible with its value (OWS trimmed); the first value wins for Peek,
@@ -64,7 +68,7 @@ func init() {
 			default:
 				frags = fragEvery(wire, in.N(2))
 			}
-			cfg := pipeCfg{streaming: in.N(3) == 1}
+			cfg := pipeCfg{streaming: in.N(3) == 1, noNorm: len(in) > 7 && in.N(7) == 1}
 			partial := 0
 			if len(in) > 6 && in.N(6) > 0 && cfg.streaming {
 				partial = in.N(6)
@@ -95,7 +99,7 @@ func init() {
 					}
 					continue
 				}
-				if why := checkHandled(obs.handled[i], q); why != "" {
+				if why := checkHandled(obs.handled[i], q, cfg.noNorm); why != "" {
 					bad("handler-saw-different-request:"+strings.SplitN(why, ":", 2)[0], fmt.Sprintf("request %d: %s\nsaw: %s", i, why, truncate(obs.handled[i], 300)))
 					return fs
 				}
@@ -141,7 +145,11 @@ func init() {
 				if t.R.Intn(4) == 0 {
 					partial = []int{1, 100, 5000, 8192, 9000, 20000}[t.R.Intn(6)]
 				}
-				t.Do(In{Nn(seed), Nn(n), Nn(frag), Nn(t.R.Intn(2)), Nn(t.R.Intn(2)), Nn(big), Nn(partial)}, true)
+				noNorm := 0
+				if t.R.Intn(4) == 0 {
+					noNorm = 1
+				}
+				t.Do(In{Nn(seed), Nn(n), Nn(frag), Nn(t.R.Intn(2)), Nn(t.R.Intn(2)), Nn(big), Nn(partial), Nn(noNorm)}, true)
 			}
 		}})
 }
@@ -164,7 +172,7 @@ func init() {
 				body = "3\r\nabc\r\n0\r\n\r\n"
 			}
 			wire := "POST /x HTTP/1.1\r\nHost: h\r\n" + string(name) + ": " + val + "\r\n\r\n" + body + c14Probe
-			obs := runPipe([][]byte{[]byte(wire)}, pipeCfg{})
+			obs := runPipe([][]byte{[]byte(wire)}, pipeCfg{noNorm: len(in) > 2 && in.N(2) == 1})
 			var fs []Finding
 			isFraming := strings.EqualFold(string(name), "Content-Length") || strings.EqualFold(string(name), "Transfer-Encoding")
 			for _, h := range obs.handled {
@@ -203,6 +211,7 @@ func init() {
 				}
 				for _, n := range names {
 					t.Do(In{H(n), S(val)}, true)
+					t.Do(In{H(n), S(val), Nn(1)}, true) // the same with DisableHeaderNamesNormalizing
 				}
 			}
 		}})
